@@ -420,7 +420,7 @@ func genTextMode(r *coqfmt.Rng, t reflect.Type, allowBad bool) (string, bool) {
 	if k := t.Kind(); allowBad && k != reflect.String && k != reflect.Slice && k != reflect.Map && k != reflect.Ptr && r.Chance(1, 10) {
 		return "", true // a variable that is present but empty: unparsable for every non-string scalar
 	}
-	if allowBad && r.Chance(1, 6) {
+	if allowBad && r.Chance(1, 2) {
 		// beyond the narrow float kinds' range, inside float64's: must be an error, not an infinity
 		switch t.Kind() {
 		case reflect.Float32:
@@ -527,6 +527,15 @@ func run(raw json.RawMessage) driver.Result {
 	}
 	var leaves []leafInfo
 	walk(T, nil, 0, &leaves)
+	if len(leaves) > 0 && r.Chance(1, 6) {
+		// a prefix that is also the first word of some leaf's own name: PREFIX_PREFIX_REST is that
+		// leaf's variable, PREFIX_REST is somebody else's
+		if name := docName(leaves[r.Intn(len(leaves))], "", nd, td); strings.Contains(name, "_") && leaves[0].envTag == "" {
+			if w := name[:strings.Index(name, "_")]; w != "" {
+				prefix = w
+			}
+		}
+	}
 
 	// names that must never be bound: candidates of leaves whose text parsing is not modelled
 	forbidden := map[string]bool{}
@@ -551,18 +560,22 @@ func run(raw json.RawMessage) driver.Result {
 	}
 	pSet := 1 + r.Intn(4)      // probability k/4 that a leaf's documented variable is bound
 	allowBad := r.Chance(1, 4) // malformed / out-of-range texts only in a quarter of the cases
+	singleBad := r.Chance(1, 2)
 	for _, l := range leaves {
 		cls := leafClass(l.typ)
-		if cls == kSkip || (cls == kErr && !(allowBad && r.Chance(1, 3))) {
+		// half of the cases with unusable values have exactly ONE (a second one would hide an error that
+		// went missing for the first)
+		mayBad := allowBad && (!singleBad || nBad == 0)
+		if cls == kSkip || (cls == kErr && !(mayBad && r.Chance(1, 3))) {
 			continue
 		}
 		doc := docName(l, prefix, nd, td)
 		fused := fusedName(l, prefix)
 		if r.Chance(pSet, 4) {
-			txt, bad := genTextMode(r, l.typ, allowBad)
+			txt, bad := genTextMode(r, l.typ, mayBad)
 			if bind(doc, txt) {
 				nDoc++
-				if bad {
+				if bad || cls == kErr {
 					nBad++
 				}
 			}
@@ -571,6 +584,12 @@ func run(raw json.RawMessage) driver.Result {
 			txt, _ := genText(r, l.typ)
 			if bind(fused, txt) {
 				nFused++
+			}
+		}
+		if bare := strings.TrimPrefix(doc, prefix+"_"); prefix != "" && strings.HasPrefix(bare, prefix+"_") && r.Chance(2, 3) {
+			txt, _ := genText(r, l.typ)
+			if bind(bare, txt) { // the name without the (stuttering) prefix: not this leaf's variable
+				nDecoy++
 			}
 		}
 		// decoys around the real name
